@@ -111,4 +111,15 @@ def dHeaderBoth : Doc :=
       [("value", .node .header { flags := ["hasSchema", "hasExample", "hasExamples"], nums := [("content", 0)], vals := [("example", .int)] }
         [("schema", schemaRefTo (.node .schema { lists := [("type", ["integer"])], flags := ["simple"] } []))])])])]]
 
+/-- an operation whose `servers` holds a server object without `url` -/
+def dOpServer : Doc :=
+  root [pathItem "/p" [.node .operation { strs := [("key", "get")] }
+    [("parameters", .node .parameters {} []), ("responses", okResponses plainResponse),
+     ("servers", .node .servers {} [("items", .node .server {} [])])]]]
+/-- a path item whose `servers` holds a server with an undeclared variable -/
+def dPathItemServer : Doc :=
+  root [.node .pathItem { strs := [("key", "/p")] }
+    [("operations", op [] plainResponse),
+     ("servers", .node .servers {} [("items", .node .server { strs := [("url", "https://{env}.example.com")] } [])])]]
+
 end KinModel.DocValidate.W
